@@ -147,6 +147,14 @@ def rule_evalall(P) -> RuleResult:
             paths = Engine(P, on_attr=on_attr, on_call=on_call).paths(call, env)
             label = f'{mode} function, operands ({", ".join(_shown(c) for c in vals)})'
             if len(paths) != 1 or paths[0].decisions:
+                by_eq = [t for p in paths for t, _ in p.decisions if isinstance(t, T) and t.op == 'cmp' and t.args[0] in ('in', 'not in', '==', '!=')
+                         and (t.args[1] is None or t.args[2] is None)]
+                if by_eq:
+                    ok = False
+                    res.fail(call.fq, 'evalall:null-by-equality', f'{label}: a NULL operand is recognised with `is None`; `{show(by_eq[0])[:60]}` asks '
+                             f'the value\'s own __eq__, and a non-NULL value may claim to equal None (a Position with zero units does): the '
+                             f'call then yields NULL for a non-NULL operand', loc(call))
+                    break
                 raise AnalysisError(f'{call.fq}: not deterministic on concrete operand values: {label}')
             p = paths[0]
             extra = {'row': (ROW,), 'context': (CONTEXT,)}.get(mode, ())
@@ -165,4 +173,247 @@ def rule_evalall(P) -> RuleResult:
             break
     if ok:
         res.ok({'evaluator': call.fq, 'cases': n, 'operands_evaluated': 'all, once, left to right', 'null': 'NULL if any operand is NULL'})
+    return res
+
+
+# ----------------------------------------------------------------------
+# R-NULLSTRICT (C01, C08): the NULL-propagating evaluator classes, exactly
+
+def rule_nullstrict(P) -> RuleResult:
+    """Every evaluator class under a NULL-propagating contract, interpreted for every NULL / non-NULL assignment of its operands and
+    every outcome of the comparisons between non-NULL values: the node yields NULL exactly when an operand is NULL, a NULL value
+    reaches neither the underlying operation nor an ordering comparison nor arithmetic nor a method call, and with all operands
+    present each is evaluated once and the operation's result is returned.  getitem(): a NULL container gives NULL.  Plus the
+    census of operator overloads: NOT / IS [NOT] NULL sit on the NULL-aware base, everything else on the NULL-propagating one."""
+    import itertools
+    from .evalnodes import NULL_CONTRACT
+    from .. import registry
+    res = RuleResult('R-NULLSTRICT')
+    reg = registry.get(P)
+    qc = P.module(QC)
+    evalnode = P.cls(QC, 'EvalNode')
+    for ci in qc.classes.values():
+        if ci.parent is not None or not P.is_subclass(ci, evalnode.fq):
+            continue
+        contract = NULL_CONTRACT.get(ci.name)
+        if contract is None:
+            inherited = P.find_method(ci, '__call__')
+            from ..loader import FuncInfo, ClassInfo
+            if isinstance(inherited, FuncInfo) and isinstance(inherited.parent, ClassInfo) \
+                    and inherited.parent is not ci and inherited.parent.name in NULL_CONTRACT:
+                continue
+            res.info(f'new-instance: evaluator class {ci.name} has no NULL contract on record (not checked)')
+            continue
+        kind, operands, why = contract
+        if kind != 'strict':
+            continue
+        call = P.find_method(ci, '__call__')
+        if call is None or not hasattr(call, 'node'):
+            raise AnalysisError(f'anchor vanished: {ci.name}.__call__')
+        OPS = {a: Sym('NODE_' + a) for a in operands}
+        VALS = {a: Sym('VALUE_' + a) for a in operands}
+        ok = True
+        ncases = 0
+        for combo in itertools.product((None, 'v'), repeat=len(operands)):
+            assign = {a: (None if c is None else VALS[a]) for a, c in zip(operands, combo)}
+            for outcomes in itertools.product((True, False), repeat=2):
+                ncases += 1
+                evals = []
+                asked = []
+
+                def on_attr(base, attr, ex):
+                    if base == NODE and attr in OPS:
+                        return OPS[attr]
+                    return NotImplemented
+
+                def on_call(fn, fv, rc, args, kw, ex, node, _assign=assign):
+                    for a, o in OPS.items():
+                        if fv == o and args == (ROW,):
+                            evals.append(a)
+                            return _assign[a]
+                    import ast as _ast
+                    if isinstance(node.func, _ast.Attribute) and rc is None:
+                        from ..symex import Raise
+                        raise Raise('AttributeError', (node.func.attr,))
+                    return NotImplemented
+
+                def oracle(term, ex, _oc=outcomes):
+                    if isinstance(term, T) and term.op == 'cmp' and term.args[0] in ('<', '<=', '>', '>=', '==', '!='):
+                        asked.append(1)
+                        return _oc[(len(asked) - 1) % len(_oc)]
+                    return None
+                paths = Engine(P, on_attr=on_attr, on_call=on_call, oracle=oracle).paths(call, {'self': NODE, call.params[1]: ROW})
+                desc = ', '.join(f'{a} {"NULL" if v is None else "non-NULL"}' for a, v in assign.items())
+                if len(paths) != 1 or paths[0].decisions:
+                    raise AnalysisError(f'{ci.fq}.__call__: not deterministic with {desc}: {[show(t)[:40] for p in paths for t, _ in p.decisions][:2]}')
+                p = paths[0]
+                want_null = any(v is None for v in assign.values())
+                nulluse = [e for e in p.events if e[0] == 'null-use']
+                passed = [e for e in p.events if e[0] == 'call' and (None in e[2] or any(v is None for _, v in e[3]))]
+                problem = None
+                if nulluse:
+                    problem = f'a NULL operand value reaches `{show(nulluse[0][2])} {nulluse[0][1]} {show(nulluse[0][3])}` (TypeError when executed)'
+                elif passed:
+                    problem = f'a NULL operand value is passed to `{passed[0][1]}`'
+                elif p.outcome != 'return':
+                    problem = f'it {p.outcome}s {p.value[0] if p.value else ""}'
+                elif (p.value is None) != want_null:
+                    problem = f'it yields {"NULL" if p.value is None else show(p.value)[:40]}'
+                elif not want_null and sorted(evals) != sorted(operands):
+                    problem = f'it evaluates {evals}, not every operand exactly once'
+                if problem and ok:
+                    ok = False
+                    res.fail(ci.fq + '.__call__', 'null-table', f'{ci.name} must yield NULL exactly when an operand is NULL ({why}); with {desc}: '
+                             f'{problem}', loc(call))
+                if not asked:
+                    break
+            if not ok:
+                break
+        if ok:
+            res.ok({'class': ci.name, 'operands': operands, 'null_truth_table_cases': ncases, 'why': why})
+    # getitem(container, key[, default]): NULL container -> NULL, whatever the other arguments
+    for name in ('GetItem2', 'GetItem3'):
+        ci = P.cls('beanquery.query_env', name)
+        call = ci.methods.get('__call__')
+        if call is None:
+            raise AnalysisError(f'anchor vanished: {name}.__call__')
+        n = 2 if name == 'GetItem2' else 3
+        OPL = [Sym(f'ARGUMENT{i}') for i in range(n)]
+        ok = True
+        for rest in itertools.product((None, V), repeat=n - 1):
+            def on_attr2(base, attr, ex):
+                if base == NODE and attr == 'operands':
+                    return SList(list(OPL))
+                return NotImplemented
+
+            def on_call2(fn, fv, rc, args, kw, ex, node, _rest=rest):
+                if fv in OPL and args == (ROW,):
+                    i = OPL.index(fv)
+                    return None if i == 0 else _rest[i - 1]
+                import ast as _ast
+                if isinstance(node.func, _ast.Attribute) and rc is None:
+                    from ..symex import Raise
+                    raise Raise('AttributeError', (node.func.attr,))
+                return NotImplemented
+            for p in Engine(P, on_attr=on_attr2, on_call=on_call2).paths(call, {'self': NODE, call.params[1]: ROW}):
+                if (p.outcome != 'return' or p.value is not None) and ok:
+                    ok = False
+                    res.fail(ci.fq + '.__call__', 'null-table', f'{name}: a NULL container must give NULL; it '
+                             f'{"gives " + show(p.value)[:40] if p.outcome == "return" else p.outcome + " " + str(p.value[0])}', loc(call))
+        if ok:
+            res.ok({'class': name, 'operands': ['container'], 'cases': 2 ** (n - 1)})
+    # census: which operator kinds sit on which base
+    aware = {'Not', 'IsNull', 'IsNotNull'}
+    for o in reg.ops:
+        base = o.base.name if o.base is not None else '?'
+        contract = NULL_CONTRACT.get(base, ('?',))[0]
+        if o.kind in aware:
+            if contract != 'aware':
+                res.fail(f'operator:{o.label}', 'base', f'{o.kind} must see NULL operands (NOT NULL is TRUE, IS [NOT] NULL '
+                         f'are NULL-aware) but is built on the NULL-propagating {base}')
+            else:
+                res.ok({'overload': o.label, 'base': base, 'contract': 'aware'})
+        else:
+            if contract != 'strict':
+                res.fail(f'operator:{o.label}', 'base', f'{o.kind} must yield NULL for a NULL operand but is built on {base}, '
+                         f'which passes NULL to the operator function',
+                         f'{o.cls.info.module.path}:{getattr(o.site, "lineno", 0)}')
+            else:
+                res.ok({'overload': o.label, 'base': base, 'contract': 'strict'})
+    return res
+
+
+# ----------------------------------------------------------------------
+# R-CHILDNODES (C02, C05): every operand a node is built with is among its child nodes
+
+CHILD_PARAMS = ('args', 'operands', 'operand', 'left', 'right', 'lower', 'upper')
+
+
+def rule_childnodes(P) -> RuleResult:
+    """Aggregate detection, the mixed / nested aggregate checks and the collection of the aggregates to update all walk the tree through
+    EvalNode.childnodes().  For every evaluator class, the constructor is interpreted with symbolic operand nodes (a list of two for
+    `args` / `operands`) and childnodes() is then interpreted on the attributes it stored: every operand must be yielded.  An operand
+    kept in a form childnodes() does not look into (a tuple, an attribute outside __slots__) hides the aggregates below it."""
+    from .eqfaith import _slots
+    from ..symex import gname
+    res = RuleResult('R-CHILDNODES')
+    res.exhaustive = True
+    qc = P.module(QC)
+    evalnode = P.cls(QC, 'EvalNode')
+    cn = evalnode.methods.get('childnodes')
+    if cn is None:
+        raise AnalysisError('anchor vanished: EvalNode.childnodes')
+    n = 0
+    for ci in qc.classes.values():
+        if ci.parent is not None or ci is evalnode or not P.is_subclass(ci, evalnode.fq):
+            continue
+        init = P.find_method(ci, '__init__')
+        if init is None or not hasattr(init, 'params'):
+            continue
+        carriers = [p for p in init.params[1:] if p in CHILD_PARAMS]
+        if not carriers:
+            continue
+        n += 1
+        OBJ = Sym('NODE_UNDER_CONSTRUCTION')
+        env = {'self': OBJ}
+        kids = []
+        for p_ in init.params[1:]:
+            if p_ in ('args', 'operands'):
+                ks = [Sym(f'CHILD_{p_}_0'), Sym(f'CHILD_{p_}_1')]
+                kids += ks
+                env[p_] = SList(list(ks))
+            elif p_ in CHILD_PARAMS:
+                k = Sym(f'CHILD_{p_}')
+                kids.append(k)
+                env[p_] = k
+            else:
+                env[p_] = Sym(f'ARG_{p_}')
+
+        def on_attr0(base, attr, ex):
+            if base in kids and attr == 'dtype':
+                return Sym('DTYPE')
+            return NotImplemented
+        ips = Engine(P, on_attr=on_attr0, max_depth=3).paths(init, env)
+        slots, _ = _slots(P, ci)
+        for ip in ips:
+            if ip.outcome == 'raise':
+                continue
+            heap = dict(ip.heap)
+
+            def on_attr(base, attr, ex, _h=heap):
+                if base == OBJ and attr == '__slots__':
+                    return SList(list(slots))
+                v = _h.get(T('attr', (base, attr)))
+                return v if v is not None else NotImplemented
+
+            def on_call(fn, fv, rc, args, kw, ex, node, _h=heap):
+                if fn == 'getattr' and len(args) >= 2 and args[0] == OBJ and isinstance(args[1], str):
+                    v = _h.get(T('attr', (OBJ, args[1])))
+                    if v is None and len(args) == 3:
+                        return args[2]
+                    return v
+                return NotImplemented
+
+            def on_isinstance(v, c, ex):
+                name = gname(c).split('.')[-1]
+                if name == 'EvalNode':
+                    return isinstance(v, Sym) and v in kids
+                if name == 'list':
+                    return isinstance(v, SList) and v.kind == 'list'
+                if name == 'tuple':
+                    return isinstance(v, T) and v.op == 'tuple'
+                return False
+            yielded = []
+            for p in Engine(P, on_attr=on_attr, on_call=on_call, on_isinstance=on_isinstance, inline_generators=True).paths(cn, {'self': OBJ}):
+                yielded += [e[1] for e in p.events if e[0] == 'yield']
+            missing = [k for k in kids if k not in yielded]
+            if missing:
+                res.fail(ci.fq, 'childnodes:hidden', f'{ci.name}: the operand(s) {[k.name for k in missing]} it is built with are not among its child '
+                         f'nodes (slots walked: {list(slots)}; stored as {[(a, show(heap.get(T("attr", (OBJ, a))))[:40]) for a in slots]}): an '
+                         f'aggregate below them is not found, so the query is not treated as an aggregate query or the aggregate is never '
+                         f'updated', loc(ci))
+            else:
+                res.ok({'class': ci.name, 'operands': [k.name for k in kids], 'all_yielded_by_childnodes': True})
+    if n < 6:
+        raise AnalysisError(f'only {n} evaluator classes with operand parameters found')
     return res
